@@ -4,6 +4,7 @@ import (
 	"flag"
 	"fmt"
 	"os"
+	"runtime/pprof"
 	"sort"
 	"strings"
 )
@@ -21,13 +22,21 @@ func main() {
 		fmt.Fprintln(os.Stderr, "usage: gvc <check|func|loops|selftest> ...")
 		os.Exit(2)
 	}
+	if pf := os.Getenv("GVC_PROF"); pf != "" {
+		if f, err := os.Create(pf); err == nil {
+			pprof.StartCPUProfile(f)
+			defer pprof.StopCPUProfile()
+		}
+	}
 	switch os.Args[1] {
 	case "func":
 		cmdFunc(os.Args[2:])
 	case "loops":
 		cmdLoops(os.Args[2:])
 	case "check":
-		os.Exit(cmdCheck(os.Args[2:]))
+		rc := cmdCheck(os.Args[2:])
+		pprof.StopCPUProfile()
+		os.Exit(rc)
 	case "replay":
 		os.Exit(cmdReplay(os.Args[2:]))
 	default:
@@ -144,4 +153,3 @@ func keys(m map[string]bool) []string {
 	sort.Strings(out)
 	return out
 }
-
